@@ -70,6 +70,9 @@ def cmap_fmt4(mapping, use_array=False):
             segs.append([c, c, (g - c) & 0xFFFF, [g]])
     term_gid = mapping.get(0xFFFF)
     segs.append([0xFFFF, 0xFFFF, (1 if term_gid is None else (term_gid - 0xFFFF)) & 0xFFFF, None])
+    # a closing segment that carries real mappings: FFFF continues the run that ends at FFFE
+    if term_gid is not None and not use_array and len(segs) >= 2 and segs[-2][1] == 0xFFFE and segs[-2][2] == (term_gid - 0xFFFF) & 0xFFFF:
+        segs.pop(); segs[-1][1] = 0xFFFF
     n = len(segs)
     arrays = b''; roffs = []
     for i, s in enumerate(segs):
